@@ -1044,6 +1044,22 @@ fn leaf_muts(v: &Value, cur: &mut Vec<String>, in_struct_object: bool, out: &mut
                     // the member as a whole (a key of a map / set, a field of a struct)
                     out.push(Mut::Remove { path: cur.clone() });
                 }
+                // a string set written as a plain list of its members, and a list of strings written
+                // as a set: the right members in the wrong JSON shape
+                if let Value::Object(m) = x {
+                    if !m.is_empty() && m.values().all(|e| e.as_object().map_or(false, |o| o.is_empty())) {
+                        out.push(Mut::Set { path: cur.clone(), value: Value::Array(m.keys().map(|k| json!(k)).collect()) });
+                    }
+                }
+                if let Value::Array(a) = x {
+                    if !a.is_empty() && a.iter().all(|e| e.is_string()) {
+                        let mut m = Map::new();
+                        for e in a {
+                            m.insert(e.as_str().unwrap().to_string(), json!({}));
+                        }
+                        out.push(Mut::Set { path: cur.clone(), value: Value::Object(m) });
+                    }
+                }
                 cur.pop();
             }
         }
